@@ -109,3 +109,29 @@ def _split_params(head):
             cur += ch
     parts.append(cur)
     return parts
+
+
+def wire_tree(data):
+    """Parse serialised bytes into nested [name, [(prop name, value text)], [children]] with an
+    own mini scanner (unfold, split, BEGIN/END stack).  Returns None when not balanced."""
+    text = data.decode("utf-8", "replace").replace("\r\n ", "").replace("\r\n\t", "")
+    root = ["<root>", [], []]
+    stack = [root]
+    for line in text.split("\r\n"):
+        if not line:
+            continue
+        if line.startswith("BEGIN:"):
+            node = [line[6:], [], []]
+            stack[-1][2].append(node)
+            stack.append(node)
+        elif line.startswith("END:"):
+            if len(stack) < 2 or stack[-1][0] != line[4:]:
+                return None
+            stack.pop()
+        else:
+            head = _head(line)
+            name = _split_params(head)[0]
+            stack[-1][1].append((name, line[len(head) + 1:]))
+    if len(stack) != 1:
+        return None
+    return root
